@@ -200,6 +200,29 @@ template <ModellingHypothesis::Hypothesis H, StiffnessTensorAlterationCharacteri
     e.ensure("C(" + std::to_string(i) + "," + std::to_string(j) + ")=" + (condense ? "condensed 3D" : "3D sub-block"), e.eq(C(i, j), ref));
   }
 }
+// ComputeAlteredStiffnessTensor<H>::exe: from the unaltered tensor of the hypothesis to the altered one: static condensation of the
+// stress-free direction (zz, index 2) in plane stress, identity otherwise. D is any tensor without normal/shear coupling.
+template <ModellingHypothesis::Hypothesis H, class E> void c_altered_from_unaltered(E& e) {
+  using T = typename E::real;
+  constexpr unsigned short N = ModellingHypothesisToSpaceDimension<H>::value;
+  constexpr unsigned short n = StensorDimeToSize<N>::value;
+  st2tost2<N, T> D;
+  for (unsigned short i = 0; i < n; ++i) for (unsigned short j = 0; j < n; ++j) D(i, j) = e.var("D" + std::to_string(i) + std::to_string(j));
+  if constexpr (H == ModellingHypothesis::PLANESTRESS) {
+    e.require(!e.eq(D(2, 2), T(0)));
+    for (unsigned short i = 0; i < 3; ++i) { e.require(e.eq(D(i, 3), T(0))); e.require(e.eq(D(3, i), T(0))); }
+  }
+  st2tost2<N, T> Da;
+  ComputeAlteredStiffnessTensor<H>::exe(Da, D);
+  for (unsigned short i = 0; i < n; ++i) for (unsigned short j = 0; j < n; ++j) {
+    T ref = D(i, j);
+    if constexpr (H == ModellingHypothesis::PLANESTRESS) {
+      if (i == 2 || j == 2) ref = T(0);
+      else ref = D(i, j) - D(i, 2) * D(2, j) / D(2, 2);
+    }
+    e.ensure("Da(" + std::to_string(i) + "," + std::to_string(j) + ")=" + (H == ModellingHypothesis::PLANESTRESS ? "condensed D" : "D"), e.eq(Da(i, j), ref));
+  }
+}
 using MH = ModellingHypothesis;
 constexpr auto UNA = StiffnessTensorAlterationCharacteristic::UNALTERED;
 constexpr auto ALT = StiffnessTensorAlterationCharacteristic::ALTERED;
@@ -213,6 +236,10 @@ VSYM_CONTRACT("orthotropic/TRIDIMENSIONAL", c_ortho_3D)
   VSYM_CONTRACT("orthotropic/" NAME "/ALTERED", (c_ortho_reduced<MH::H, ALT>))                \
   VSYM_CONTRACT("isotropic/" NAME "/UNALTERED", (c_iso_reduced<MH::H, UNA>))                  \
   VSYM_CONTRACT("isotropic/" NAME "/ALTERED", (c_iso_reduced<MH::H, ALT>))
+VSYM_CONTRACT("ComputeAlteredStiffnessTensor/PLANESTRESS", (c_altered_from_unaltered<MH::PLANESTRESS>))
+VSYM_CONTRACT("ComputeAlteredStiffnessTensor/PLANESTRAIN", (c_altered_from_unaltered<MH::PLANESTRAIN>))
+VSYM_CONTRACT("ComputeAlteredStiffnessTensor/TRIDIMENSIONAL", (c_altered_from_unaltered<MH::TRIDIMENSIONAL>))
+VSYM_CONTRACT("ComputeAlteredStiffnessTensor/AXISYMMETRICALGENERALISEDPLANESTRAIN", (c_altered_from_unaltered<MH::AXISYMMETRICALGENERALISEDPLANESTRAIN>))
 RED("AXISYMMETRICALGENERALISEDPLANESTRAIN", AXISYMMETRICALGENERALISEDPLANESTRAIN)
 RED("AXISYMMETRICALGENERALISEDPLANESTRESS", AXISYMMETRICALGENERALISEDPLANESTRESS)
 RED("AXISYMMETRICAL", AXISYMMETRICAL)
